@@ -148,3 +148,35 @@ func (r *BadK2Registry) Build(id string) (interceptor.Interceptor, error) {
 	}
 	return interceptor.NewChain(list), nil
 }
+
+// ---- K3 / J3 ------------------------------------------------------------------------------------------------------
+
+type k3Node struct{ kids []*k3Node }
+
+// GoodK3Compact drops nil entries in place: at most one element written per element read.
+func GoodK3Compact(xs []*k3Node) []*k3Node {
+	out := xs[:0]
+	for _, x := range xs {
+		if x != nil {
+			out = append(out, x)
+		}
+	}
+	return out
+}
+
+// BadK3Flatten splices the children of each node into the slice it is still reading.
+func BadK3Flatten(xs []*k3Node) []*k3Node {
+	out := xs[:0]
+	for _, x := range xs {
+		if len(x.kids) > 0 {
+			out = append(out, x.kids...)
+			continue
+		}
+		out = append(out, x)
+	}
+	return out
+}
+
+func GoodJ3Wrap(base uint16, i int) uint16 { return uint16((int(base) + i) % 65536) }
+
+func BadJ3Wrap(base uint16, i int) uint16 { return uint16((int(base) + i) % 65535) }
